@@ -1,4 +1,6 @@
 import St4sd.Model.Ini
+import St4sd.Model.IniProc
+import St4sd.Model.IniDir
 import St4sd.Gen.C19
 import St4sd.Lemmas.C19
 import St4sd.Lemmas.C19Names
@@ -275,6 +277,189 @@ theorem variable_roundtrip (pt : List ParseEntry) (known : List S) (dt : List Du
   refine ⟨(name, s), ?_, ?_⟩
   · simp [dumpPair, dumpSome, pyStr]
   · simp only [parsePair, hk, Bool.false_eq_true, if_false]
+
+/-! ## The reader as a process: sections parsed earlier do not matter
+
+Model: `St4sd/Model/IniProc.lean`.  Stated for every parse table, backend table, initial answer of
+`known_flowir_options()` and every sequence of sections read earlier in the process (components of earlier stages,
+earlier loads of other workflows, components of any backend). -/
+section Process
+open St4sd.IniProc
+
+/-- the reader has no state: whatever was parsed, `known_flowir_options()` answers as before -/
+theorem reader_state_constant (pt : List ParseEntry) (bt : BackendTable) (P : Proc) (secs : List Section) :
+    (parseSeq false pt bt P secs).1 = P := by
+  induction secs with
+  | nil => rfl
+  | cons s r ih => simpa [parseSeq, parseComponent, validate] using ih
+
+/-- every section of a process is parsed as if it were the only one -/
+theorem parseSeq_pointwise (pt : List ParseEntry) (bt : BackendTable) (P : Proc) (secs : List Section) :
+    (parseSeq false pt bt P secs).2 = secs.map (parseSection pt P.known) := by
+  induction secs with
+  | nil => rfl
+  | cons s r ih => simpa [parseSeq, parseComponent, validate] using ih
+
+/-- **what a section parses to does not depend on what the process parsed before** -/
+theorem parse_independent_of_history (pt : List ParseEntry) (bt : BackendTable) (P : Proc) (earlier : List Section)
+    (sec : Section) :
+    (parseComponent false pt bt (parseSeq false pt bt P earlier).1 sec).2 = parseSection pt P.known sec := by
+  rw [reader_state_constant]; rfl
+
+/-- **`instance_roundtrip` at any point of a process**: after any sections read earlier (components of the simulator
+backend included, whose options are not legacy keys), an expressible component is written to a section that the
+reader accepts and every pair is found again — component variables whose names are options of some backend too. -/
+theorem instance_roundtrip_any_history (earlier : List Section) (c : List (Path × Val))
+    (hc : ∀ pv ∈ c, pairOk dumpTable parseTable knownKeys pv = true) :
+    ∃ out, (parseComponent false parseTable backendTable
+              (parseSeq false parseTable backendTable ⟨knownKeys⟩ earlier).1
+              (dumpSection dumpTable passthrough c)).2 = some out ∧
+      ∀ p v, (p, v) ∈ c → v ≠ .none →
+        ∃ w pa, norm pa w = norm pa v ∧ ((p, w) ∈ out ∨ (p.length = 1 ∧ w = .words [])) := by
+  rw [parse_independent_of_history]
+  exact instance_roundtrip c hc
+
+/-- a name that some backend accepts as an option but that is not a legacy key is a component variable, before and
+after any component of that backend was read -/
+theorem backend_option_name_is_a_variable (earlier : List Section) (name s : S)
+    (hk : knownKeys.contains name = false) :
+    (parseComponent false parseTable backendTable
+        (parseSeq false parseTable backendTable ⟨knownKeys⟩ earlier).1 [(name, s)]).2
+      = some [([variablesSeg, name], .str s)] := by
+  rw [parse_independent_of_history]
+  have hk' : ¬ name ∈ knownKeys := by simpa using hk
+  simp [parseSection, parsePair, hk']
+
+/-- non-vacuity: a simulator section read first, then a section with a variable named like a simulator option -/
+example :
+    (parseSeq false parseTable backendTable ⟨knownKeys⟩
+      [[("job-type".toList, "simulator".toList), ("sim_x".toList, "1".toList)],
+       [("sim_x".toList, "3".toList)]]).2
+    = [some [(["resourceManager".toList, "config".toList, "backend".toList], .str "simulator".toList),
+             ([variablesSeg, "sim_x".toList], .str "1".toList)],
+       some [([variablesSeg, "sim_x".toList], .str "3".toList)]] := by decide +kernel
+
+end Process
+
+/-! ## The configuration directory over several writes
+
+Model: `St4sd/Model/IniDir.lean`. -/
+section Directory
+open St4sd.IniDir
+
+/-- `dump(update_existing=True)` replaces the stage files of the flavour it writes and leaves the other flavour alone -/
+theorem dump_replaces_flavour {α : Type} (d : Dir α) (f : Bool) (desc : Files α) :
+    (dump d f desc).files f = writeAll [] desc ∧ (dump d f desc).files (!f) = d.files (!f) := by
+  cases f <;> simp [dump, Dir.files]
+
+/-- **the last write wins, whatever was written before**: after any history of writes (longer workflows, other
+workflows, the other flavour) into the directory, the stage files of the flavour written last are exactly those of
+the description written last — no file of an earlier write survives -/
+theorem dump_history_last_wins {α : Type} (d : Dir α) (hist : List (Bool × Files α)) (f : Bool) (desc : Files α) :
+    (dumpAll d (hist ++ [(f, desc)])).files f = writeAll [] desc := by
+  simp only [dumpAll, List.foldl_append, List.foldl_cons, List.foldl_nil]
+  exact (dump_replaces_flavour _ f desc).1
+
+private theorem writeAll_fresh {α : Type} (desc fs : Files α)
+    (hnd : (desc.map (·.1)).Nodup) (hfresh : ∀ e ∈ desc, ∀ g ∈ fs, g.1 ≠ e.1) :
+    writeAll fs desc = fs ++ desc := by
+  induction desc generalizing fs with
+  | nil => simp [writeAll]
+  | cons e r ih =>
+    have hw : writeFile fs e = fs ++ [e] := by
+      unfold writeFile
+      congr 1
+      apply List.filter_eq_self.mpr
+      intro g hg
+      simpa using hfresh e (List.mem_cons_self ..) g hg
+    simp only [List.map_cons, List.nodup_cons] at hnd
+    show writeAll (writeFile fs e) r = _
+    rw [hw, ih (fs ++ [e]) hnd.2]
+    · simp
+    · intro e' he' g hg
+      rcases List.mem_append.mp hg with hg | hg
+      · exact hfresh e' (List.mem_cons_of_mem _ he') g hg
+      · have : g = e := by simpa using hg
+        subst this
+        intro heq
+        exact hnd.1 (heq ▸ List.mem_map.mpr ⟨e', he', rfl⟩)
+
+private theorem descFrom_fst {α : Type} (l : List α) (k : Nat) : ∀ e ∈ descFrom k l, k ≤ e.1 := by
+  induction l generalizing k with
+  | nil => intro e he; cases he
+  | cons a r ih =>
+    intro e he
+    rcases List.mem_cons.mp he with h | h
+    · subst h; exact Nat.le_refl _
+    · exact Nat.le_of_succ_le (ih (k + 1) e h)
+
+private theorem descFrom_nodup {α : Type} (l : List α) (k : Nat) : ((descFrom k l).map (·.1)).Nodup := by
+  induction l generalizing k with
+  | nil => simp [descFrom]
+  | cons a r ih =>
+    simp only [descFrom, List.map_cons, List.nodup_cons]
+    refine ⟨?_, ih (k + 1)⟩
+    intro hm
+    obtain ⟨e, he, hk⟩ := List.mem_map.mp hm
+    have := descFrom_fst r (k + 1) e he
+    omega
+
+private theorem stageFile_descFrom {α : Type} (l : List α) (k j : Nat) :
+    stageFile (descFrom k l) (k + j) = l[j]? := by
+  induction l generalizing k j with
+  | nil => simp [descFrom, stageFile]
+  | cons a r ih =>
+    cases j with
+    | zero => simp [descFrom, stageFile]
+    | succ j =>
+      have hne : (k == k + (j + 1)) = false := by simp
+      have := ih (k + 1) j
+      have e : k + 1 + j = k + (j + 1) := by omega
+      rw [e] at this
+      simp only [descFrom, stageFile, List.find?_cons, hne, List.getElem?_cons_succ] at this ⊢
+      exact this
+
+private theorem collect_of {α : Type} (fs : Files α) (l : List α) (k : Nat)
+    (h : ∀ j, j < l.length → stageFile fs (k + j) = l[j]?) : collect fs k l.length = some l := by
+  induction l generalizing k with
+  | nil => rfl
+  | cons a r ih =>
+    have h0 : stageFile fs k = some a := by simpa using h 0 (by simp)
+    have hr : collect fs (k + 1) r.length = some r := by
+      apply ih
+      intro j hj
+      have := h (j + 1) (by simp; omega)
+      have e : k + (j + 1) = k + 1 + j := by omega
+      rw [e] at this
+      simpa using this
+    simp [collect, h0, hr]
+
+private theorem descFrom_length {α : Type} (l : List α) (k : Nat) : (descFrom k l).length = l.length := by
+  induction l generalizing k with
+  | nil => rfl
+  | cons a r ih => simp [descFrom, ih]
+
+/-- **what is discovered is what was written last**: after any history of writes, the reader finds exactly the stages
+`0 … n-1` of the description written last (with the content written last), never a stage of an earlier write -/
+theorem discover_after_history {α : Type} (d : Dir α) (hist : List (Bool × Files α)) (f : Bool) (stages : List α) :
+    discover ((dumpAll d (hist ++ [(f, descOf stages)])).files f) = some stages := by
+  rw [dump_history_last_wins]
+  have hw : writeAll [] (descOf stages) = descOf stages := by
+    have := writeAll_fresh (descOf stages) [] (descFrom_nodup stages 0) (by intro _ _ g hg; cases hg)
+    simpa using this
+  rw [hw]
+  unfold discover descOf
+  rw [descFrom_length]
+  apply collect_of
+  intro j _
+  have := stageFile_descFrom stages 0 j
+  simpa using this
+
+/-- non-vacuity: three stages written, then two: two are found -/
+example : discover ((dumpAll (⟨[], []⟩ : Dir Nat) [(true, descOf [10, 11, 12]), (false, descOf [7]), (true, descOf [20, 21])]).files true)
+    = some [20, 21] := by decide
+
+end Directory
 
 /-! ## Non-vacuity: concrete instances of the hypotheses and of the round trip -/
 
